@@ -292,8 +292,8 @@ func (r *runner) genWin(e *env, maxDepth int) (winT, string) {
 	ws := winT{}
 	pw, ph := e.cols, e.rows
 	kind := "built"
-	if rnd.Intn(100) < 15 {
-		f := frameT{r.rint(-2, 2), r.rint(-2, 2), r.rint(-1, e.cols+3), r.rint(-1, e.rows+3)}
+	if rnd.Intn(100) < 12 {
+		f := frameT{r.rint(-1, 1), r.rint(-1, 1), r.rint(-1, e.cols+3), r.rint(-1, e.rows+3)}
 		ws.Root = &f
 		pw, ph = f.W, f.H
 		kind = "literal"
@@ -312,10 +312,20 @@ func (r *runner) genWin(e *env, maxDepth int) (winT, string) {
 		if !st.ViaNew {
 			kind = "literal"
 		}
-		if rnd.Intn(100) < 50 && bw > 0 && bh > 0 {
+		if rnd.Intn(100) < 60 && bw > 0 && bh > 0 {
 			// a proper sub-rectangle
 			st.A, st.B = rnd.Intn(bw), rnd.Intn(bh)
 			st.C, st.D = r.rint(1, bw-st.A), r.rint(1, bh-st.B)
+		} else if rnd.Intn(100) < 60 && bw > 0 && bh > 0 {
+			// overlaps the parent but may stick out on any side
+			st.A, st.B = r.rint(-2, bw-1), r.rint(-2, bh-1)
+			st.C, st.D = r.rint(1, bw+3), r.rint(1, bh+3)
+			if rnd.Intn(4) == 0 {
+				st.C = -1 - rnd.Intn(2) // "the rest of the parent"
+			}
+			if rnd.Intn(4) == 0 {
+				st.D = -1 - rnd.Intn(2)
+			}
 		} else {
 			st.A, st.B = r.rint(-3, bw+3), r.rint(-3, bh+3)
 			st.C, st.D = r.rint(-3, bw+3), r.rint(-3, bh+3)
@@ -400,6 +410,27 @@ func (r *runner) genCell() cellT {
 	}
 }
 
+// a coordinate for a window dimension n: mostly the edges and their neighbours
+func (r *runner) coord(n int) int {
+	if n > 0 && r.cfg.Rand.Intn(2) == 0 {
+		return r.cfg.Rand.Intn(n)
+	}
+	switch r.cfg.Rand.Intn(10) {
+	case 0, 1:
+		return n - 1
+	case 2, 3:
+		return n
+	case 4:
+		return 0
+	case 5:
+		return -1
+	case 6:
+		return n + 1
+	default:
+		return r.rint(-2, n+2)
+	}
+}
+
 func (r *runner) genOp(e *env, ws winT, kind string) opT {
 	w, h := r.sizeOf(e, ws)
 	if w < 0 {
@@ -411,9 +442,9 @@ func (r *runner) genOp(e *env, ws winT, kind string) opT {
 	op := opT{Kind: kind}
 	switch kind {
 	case "setcell":
-		op.Col, op.Row, op.Cell = r.rint(-2, w+2), r.rint(-2, h+2), r.genCell()
+		op.Col, op.Row, op.Cell = r.coord(w), r.coord(h), r.genCell()
 	case "setstyle":
-		op.Col, op.Row, op.St = r.rint(-2, w+2), r.rint(-2, h+2), 1+r.cfg.Rand.Intn(7)
+		op.Col, op.Row, op.St = r.coord(w), r.coord(h), 1+r.cfg.Rand.Intn(7)
 	case "fill":
 		op.Cell = r.genCell()
 	case "clear":
@@ -421,6 +452,9 @@ func (r *runner) genOp(e *env, ws winT, kind string) opT {
 		op.Segs = r.genSegs(2 + (w*h)/2)
 	case "ptrunc", "println":
 		op.Row = r.rint(-2, h+2)
+		if h > 0 && r.cfg.Rand.Intn(10) < 6 {
+			op.Row = r.cfg.Rand.Intn(h)
+		}
 		op.Segs = r.genSegs(2 + w)
 	}
 	return op
@@ -459,13 +493,16 @@ func main() {
 		}
 	}()
 
-	kinds := []string{"setcell", "setstyle", "fill", "clear", "print", "print", "ptrunc", "println", "wrap", "wrap"}
-	n := 2600
+	kinds := []string{"setcell", "setcell", "setstyle", "fill", "clear", "print", "print", "ptrunc", "println", "wrap", "wrap", "setcell"}
+	n := 3600
 	if cfg.Thorough() {
 		n = 60000
 	}
 	for i := 0; i < n; i++ {
 		e := envs[cfg.Rand.Intn(len(envs))]
+		if e.cols < 3 && cfg.Rand.Intn(3) > 0 {
+			e = envs[cfg.Rand.Intn(len(envs))] // fewer tiny screens
+		}
 		ws, kind := r.genWin(e, 4)
 		op := r.genOp(e, ws, kinds[i%len(kinds)])
 		r.run(e, ws, op, "random", kind, fmt.Sprintf("%dx%d", e.cols, e.rows))
@@ -506,7 +543,7 @@ func main() {
 			e32 = e
 		}
 	}
-	stride2 := 9973
+	stride2 := 24989
 	if cfg.Thorough() {
 		stride2 = 131
 	}
